@@ -179,6 +179,61 @@ PROPS["C19"] = {
     "assumptions": ["iced-x86 decodes deterministically and terminates on every byte string (exercised on every case, not modelled)"],
 }
 
+def elf_stats(case, ci):
+    out = []
+    el = next((a for c, a in zip(case, ci) if c.startswith("elfload")), "?")
+    out.append("load:" + el.split(" ")[0])
+    ar = next((a for c, a in zip(case, ci) if c == "areas"), "")
+    areas = [t for t in ar.split(" ") if t.startswith("elf_load")]
+    out.append(f"areas:{min(len(areas), 6)}")
+    una = sum(1 for t in areas if int(t.split(",")[1], 16) & 0xfff)
+    out.append(f"unaligned-areas:{min(una, 3)}")
+    out.append("header-path-areas:%d" % min(3, sum(1 for t in areas if t.startswith("elf_load_header"))))
+    sc = next((a for c, a in zip(case, ci) if c == "symcount"), "0")
+    out.append("symbols:" + ("0-1" if sc in ("0", "1") else "2+"))
+    return out
+
+
+def elf_oracle(case, ci):
+    for c, a in zip(case, ci):
+        w = a.split(" ", 1)[0] if a else ""
+        if w in ("panic", "abort", "hang"):
+            return [f"crash:{w}:{c.split(' ')[0]}"]
+    return []
+
+
+def elf_line_equal(cmd, a, b):
+    # the model never sees the feedback token; compare what precedes it
+    return a.split(" @", 1)[0] == b
+
+
+PROPS["C15"] = {
+    "lean_modules": ["AxVerif.Props.C15"],
+    "gen": "C15",
+    "stats": elf_stats,
+    "oracle": elf_oracle,
+    "spec_determined": True,
+    "shards": {"quick": 8, "thorough": 16},
+    "exhaustive": {"quick": [], "thorough": []},
+    "proved_scope": "",
+    "sampled_only_scope": "",
+    "assumptions": ["the elf crate's parse result (entry, program headers, symbol table) is taken as given; the generator's ELF writer is the independent description of the file"],
+}
+PROPS["C16"] = {
+    "lean_modules": ["AxVerif.Props.C16"],
+    "gen": "C16",
+    "stats": elf_stats,
+    "oracle": elf_oracle,
+    "rlimit_as": 6 * 1024 ** 3,
+    "spec_determined": True,
+    "shards": {"quick": 8, "thorough": 16},
+    "exhaustive": {"quick": [], "thorough": []},
+    "proved_scope": "",
+    "sampled_only_scope": "",
+    "assumptions": ["the elf crate's parser is exercised on every generated file, not modelled"],
+}
+
+
 def c20_stats(case, ci):
     fam = "fuzz" if any(c.startswith("setxmms") for c in case) else ("partial-registers" if any(c.startswith("rw 64 RBX") for c in case) and not any(c.startswith("setregs") for c in case) else "program")
     errs = sum(1 for a in ci if a.startswith("err"))
